@@ -251,7 +251,7 @@ Proof. exact same_H_satisfiable. Qed.
    ------------------------------------------------------------------------------------------------ *)
 From FF Require Import Extracted.Kernels Proofs.KernelTie.
 
-Theorem C01_kernels_translated : kernel_untranslated = nil.
+Theorem C01_kernels_translated : kernel_untranslated_C01 = nil.
 Proof. exact kernels_translated. Qed.
 
 Theorem C01_kernel_foi_is_source : forall thr w evm evn dt ge_re ge_im gi_re gi_im, 0 <= thr ->
@@ -312,3 +312,43 @@ Theorem C01_kernel_cm_atomic_is_source : forall na nk no (phases : list (list (C
     (fun g j k' => rget RO (nth g Ls nil) j k') a k o.
 Proof. exact cm_atomic_is_source. Qed.
 Print Assumptions C01_kernel_cm_atomic_is_source.
+
+(* numeric._propagate_eigenvectors / numeric._transform_hamiltonian *)
+Theorem C01_kernel_propagate_eigvecs_is_source : forall d (Qf Vf : nat -> nat -> nat -> C (T:=R)) (Qm Vm : Mat (T:=R)) g a b,
+  (forall x y, (x < d)%nat -> (y < d)%nat -> Qf g x y = mget RO Qm x y) ->
+  (forall x y, (x < d)%nat -> (y < d)%nat -> Vf g x y = mget RO Vm x y) -> (a < d)%nat -> (b < d)%nat ->
+  propagate_eigvecs_entry_src RO d Qf Vf g a b = mget RO (mmul RO d (madj RO d Qm) Vm) a b.
+Proof. exact propagate_eigvecs_is_source. Qed.
+
+Theorem C01_kernel_transform_hamiltonian_is_source : forall d (Vs ns : list (Mat (T:=R))) (nc : list (list R)) j g m n,
+  (m < d)%nat -> (n < d)%nat ->
+  transform_hamiltonian_entry_src RO d (fun g' a b => mget RO (nth g' Vs nil) a b) (fun j' a b => mget RO (nthm ns j') a b)
+     (fun j' g' => vg RO (nthv nc j') g') j g m n =
+  cscal RO (vg RO (nthv nc j) g) (mget RO (transform_by_unitary RO d (nth g Vs nil) (nthm ns j)) m n).
+Proof. exact transform_hamiltonian_is_source. Qed.
+
+(* numeric.calculate_control_matrix_from_scratch, the whole function (allocation of the buffers, _propagate_eigenvectors,
+   _transform_hamiltonian, the loop over the segments with the per-segment transformation of the basis, the phase factors,
+   _first_order_integral, the contraction 'o,jmn,omn,knm->jko' and the accumulation): entry [j][k][o] of the returned array IS
+   the model's control_matrix_from_scratch at the threshold literal of the source, for any contents of the uninitialised
+   buffers and any state left in the work buffers by earlier iterations (junk).  cache_intermediates False / True. *)
+Theorem C01_kernel_cm_scratch_is_source : forall d evs Vs Qs bs ns om dts ts nc junk j k o,
+  length evs = length dts -> length Vs = length dts -> (length dts <= length Qs)%nat -> (length dts <= length ts)%nat ->
+  (j < length ns)%nat -> (k < length bs)%nat -> (o < length om)%nat ->
+  a3get RO (control_matrix_from_scratch RO d foi_thr_R evs Vs Qs om bs ns nc dts ts) j k o =
+  cm_scratch_entry_src RO d (length dts)
+    (fun g m => vg RO (nth g evs nil) m) (fun g a b => mget RO (nth g Vs nil) a b) (fun g a b => mget RO (nth g Qs nil) a b)
+    (fun k' a b => mget RO (nthm bs k') a b) (fun j' a b => mget RO (nthm ns j') a b)
+    (fun o' => vg RO om o') (fun g => vg RO dts g) (fun g => vg RO ts g) (fun j' g => vg RO (nthv nc j') g) junk j k o.
+Proof. exact cm_scratch_is_source. Qed.
+Print Assumptions C01_kernel_cm_scratch_is_source.
+
+Theorem C01_kernel_cm_scratch_cache_is_source : forall d evs Vs Qs bs ns om dts ts nc junk j k o,
+  length evs = length dts -> length Vs = length dts -> (length dts <= length Qs)%nat -> (length dts <= length ts)%nat ->
+  (j < length ns)%nat -> (k < length bs)%nat -> (o < length om)%nat ->
+  a3get RO (control_matrix_from_scratch RO d foi_thr_R evs Vs Qs om bs ns nc dts ts) j k o =
+  cm_scratch_cache_entry_src RO d (length dts)
+    (fun g m => vg RO (nth g evs nil) m) (fun g a b => mget RO (nth g Vs nil) a b) (fun g a b => mget RO (nth g Qs nil) a b)
+    (fun k' a b => mget RO (nthm bs k') a b) (fun j' a b => mget RO (nthm ns j') a b)
+    (fun o' => vg RO om o') (fun g => vg RO dts g) (fun g => vg RO ts g) (fun j' g => vg RO (nthv nc j') g) junk j k o.
+Proof. exact cm_scratch_cache_is_source. Qed.
